@@ -6,7 +6,7 @@ BAD=0
 for d in benign/b*"$1"*/; do
     R=$(./seeded_run.sh "$(pwd)/$d/patch.diff" $ALL 2>&1 | grep -E "VIOLATION|rule=|HARNESS|RESULT|APPLY")
     echo "$R" | grep -E "VIOLATION|rule=|HARNESS|APPLY" | cut -c1-300
-    if echo "$R" | grep "^RESULT" | grep -qE "=[1-9]"; then BAD=$((BAD+1)); echo "ALARM on $d"; else echo "quiet $d"; fi
+    if echo "$R" | grep "^RESULT" | grep -qE "=[1-9]" || ! echo "$R" | grep -q "^RESULT"; then BAD=$((BAD+1)); echo "ALARM on $d"; else echo "quiet $d"; fi
 done
 echo "benign changes with an alarm: $BAD"
 [ $BAD -eq 0 ]
